@@ -263,27 +263,38 @@ def run(ctx):
     # collect
     fi = "<" + BBT + " as core::iter::traits::collect::FromIterator<" + SQ + ">>::from_iter"
     b, ps = paths(f, fi)
-    r = ps[0].ret if len(ps) == 1 else None
-    okf = r is not None and r[0] == "call" and r[1].endswith("Iterator::fold") and r[2][1] == ("bbconst", 0) and r[2][2][0] == "closure"
-    ctx.check(okf, "collect:fold-from-empty", "collecting squares is not a fold from the empty set: %s" % (sym.show(r)[:120] if r else None), loc(b))
+    # after desugaring, `iter.fold(EMPTY, |bb, sq| ..)` and `let mut bb = EMPTY; for sq in iter {..}; bb` are the same
+    # accumulation loop: one exit returning the accumulator, one iteration path updating it
+    rets = [p for p in ps if p.end == "return"]
+    loops = [p for p in ps if p.end == "loopback"]
+    okf = len(rets) == 1 and len(loops) == 1 and len(ps) == 2 and rets[0].ret is not None and rets[0].ret[0] == "hv"
+    step = None
     if okf:
-        cb = f.need(r[2][2][1])
-        cps = sym.SymExec(f, cb, raw=True, opaque=raw_opaque, max_depth=6).run()
-        rr = cps[0].ret if len(cps) == 1 else None
+        hv = rets[0].ret
+        init = rets[0].pre_loop.get((0, hv[3]), {}).get((hv[2], ()))
+        S = ("param", b.local_name(1))
+        nx = ("discr", ("next", S))
+        okf = init == ("bbconst", 0) and [(c[0], c[1]) for c in rets[0].conds] == [(nx, 0)] and \
+            [(c[0], c[1]) for c in loops[0].conds] == [(nx, 1)]
+        for root, val in loops[0].store.items():
+            if root[0] == "L" and root[1] == 0 and b.local_name(root[2]) == hv[2]:
+                step = val
+        okf = okf and step is not None
+    ctx.check(okf, "collect:fold-from-empty", "collecting squares is not an accumulation over the whole iterator starting from the empty set", loc(b))
+    if okf:
         bad = []
-        if rr is not None:
-            acc0 = ("field", ("param", cb.local_name(2)), "0")
-            sqidx = ("cast", "u8", ("discr", ("param", cb.local_name(3))))
-            for s in range(64):
-                try:
-                    got = BitEval({acc0: A}).vec(subst(raw_of(rr), sqidx, ("int", s, "u8")))
-                except CannotBit as ex:
-                    bad.append(str(ex))
-                    break
-                want = [const_bit(1) if i == s else A[i] for i in range(64)]
-                if got != want:
-                    bad.append(s)
-        ctx.check(rr is not None and not bad, "collect:step-is-insert", "the fold step is not `set ∪ {square}`: %s" % bad[:3], loc(cb),
+        acc0 = ("field", hv, "0")
+        sqidx = ("cast", "u8", ("discr", ("elem", S)))
+        for s in range(64):
+            try:
+                got = BitEval({acc0: A}).vec(subst(raw_of(step), sqidx, ("int", s, "u8")))
+            except CannotBit as ex:
+                bad.append(str(ex))
+                break
+            want = [const_bit(1) if i == s else A[i] for i in range(64)]
+            if got != want:
+                bad.append(s)
+        ctx.check(not bad, "collect:step-is-insert", "the accumulation step is not `set ∪ {square}`: %s" % bad[:3], loc(b),
                   sample={"collect": "fold(EMPTY, |bb, sq| bb | bit(sq))"})
     # ------------------------------------------------------------------ subsets
     ctx.rule("subset-iteration")
